@@ -130,5 +130,10 @@ def rawiter_loop(I, n, spec, script):
     nxt = {'_pos': I.wrap_int(nxt_pos), '_k': I.wrap_int(kk + 1), '__loop_entry__': loop_entry}
     I.run_hints(spec, 'body_end', nxt)
     for inv in spec.invariants:
-        I.oblige(I.eval_clause(inv, nxt), 'inv-preserve', ast.unparse(inv), where)
+        I.peel_quant = True
+        try:
+            g = I.eval_clause(inv, nxt)
+        finally:
+            I.peel_quant = False
+        I.oblige(g, 'inv-preserve', ast.unparse(inv), where)
     raise PathEnd()
